@@ -703,6 +703,35 @@ impl Kanata {
         Ok(())
     }
 
+    /// Verification hook (H3): run the private `handle_time_ticks` under virtual time.
+    /// Pretends that exactly `ms` milliseconds have passed since the last tick, then calls the
+    /// unmodified `handle_time_ticks` (tick_ms, layer-change notification, live-reload decision).
+    /// No logic is duplicated here. Returns what `handle_time_ticks` returns (ms processed).
+    #[cfg(jtroo_kanata_verif)]
+    pub fn verif_handle_time_ticks(
+        &mut self,
+        ms: u16,
+        tx: &Option<Sender<ServerMessage>>,
+    ) -> Result<u16> {
+        self.time_remainder = 0;
+        self.last_tick = instant::Instant::now()
+            .checked_sub(time::Duration::from_millis(u64::from(ms)))
+            .expect("subtract ms from current time");
+        self.handle_time_ticks(tx)
+    }
+
+    /// Verification hook: read-only view of the private reload request flag.
+    #[cfg(jtroo_kanata_verif)]
+    pub fn verif_live_reload_requested(&self) -> bool {
+        self.live_reload_requested
+    }
+
+    /// Verification hook: call the private `do_live_reload` directly (no deferral decision).
+    #[cfg(jtroo_kanata_verif)]
+    pub fn verif_do_live_reload(&mut self, tx: &Option<Sender<ServerMessage>>) -> Result<()> {
+        self.do_live_reload(tx)
+    }
+
     /// Update keyberon layout state for press/release, handle repeat separately
     pub fn handle_input_event(&mut self, event: &KeyEvent) -> Result<()> {
         log::debug!("process recv ev {event:?}");
